@@ -41,7 +41,7 @@ var (
 	FSOpens, FSCloses int
 )
 
-var memModTime = time.Unix(1600000000, 0)
+var memModTime = time.Unix(1600000000, 0).UTC()
 
 // FSRoot starts an empty tree and returns its root directory (no trailing slash).
 func FSRoot() string {
@@ -65,6 +65,10 @@ func FSAdd(path string, data []byte) {
 		}
 	}
 	if err := os.WriteFile(path, data, 0o644); err != nil {
+		panic(err)
+	}
+	// every file of the tree has the same modification time
+	if err := os.Chtimes(path, memModTime, memModTime); err != nil {
 		panic(err)
 	}
 }
@@ -148,6 +152,8 @@ func ZZWriteFile(name string, data []byte, perm os.FileMode) error {
 }
 
 func ZZRemoveAll(path string) error { return nil }
+
+func ZZChtimes(name string, atime, mtime time.Time) error { return nil }
 
 // memMissing is the errno of a path that does not resolve: ENOTDIR when it descends through a
 // regular file, ENOENT otherwise.
